@@ -30,6 +30,8 @@ TRUSTED = ["C17: the transcription of the reader's I/O skeleton (Model/IOProgRea
            "truncation / fault sweeps",
            "C17: strace's syscall tampering (inject=pread64/pwrite64/fsync/ftruncate/close) is the fault model of the public API; "
            "the in-process ReaderAt wrapper is the fault model of the internal entry points",
+           "C17: hdf5.VerifDatasetAt (harness overlay) builds a Dataset handle from (file, superblock, address) as loadObject does; the "
+           "slice tie uses it so that the pread64 calls of the process on the file are exactly those of the method under test",
            "C17: ReadAt on a range inside the file returns the file's bytes (os.File / pread64 semantics); zero-length reads do not occur"]
 ASSUMPTIONS = ["a torn tail after a crash is a prefix of the intact file (truncation), not arbitrary garbage",
                "a failing ReadAt returns a non-nil error, or fewer bytes than requested together with io.EOF"]
